@@ -53,7 +53,11 @@ IsPrefixOf(s, t) == Len(s) <= Len(t) /\ SubSeq(t, 1, Len(s)) = s
 (* coercions are a prefix of the input's); and when it is a template coercion itself that       *)
 (* throws, the output has by then already evaluated the later substitutions (the input's other  *)
 (* effects are a prefix of the output's).                                                       *)
-Why(inLog, outLog, inOut, outOut, primFault) ==
+(* swallow: the program text can catch an exception itself (catch / finally / async): a         *)
+(* coercion delayed past a substitution that throws never happens although the run completes   *)
+(* normally; and when an injected coercion fault is caught inside the program the output has   *)
+(* by then evaluated substitutions the input never reaches, so only the outcome is compared.   *)
+Why(inLog, outLog, inOut, outOut, primFault, swallow) ==
   LET si == Strip(inLog) so == Strip(outLog)
       d == FirstDiff(si, so, 1)
       ti == PrimTable(inLog) to == PrimTable(outLog)
@@ -63,14 +67,17 @@ Why(inLog, outLog, inOut, outOut, primFault) ==
       notEarlier == \A p \in to : \E q \in ti : q[1] = p[1] /\ q[2] = p[2] /\ p[3] >= q[3]
   IN IF inOut # outOut THEN "outcome differs: input " \o ToString(inOut) \o " output " \o ToString(outOut)
      ELSE IF coercionThrew THEN
+       \* the fault is injected into the FIRST coercion of an identity: in the output that may be a
+       \* coercion inside a later substitution (evaluated before the delayed template coercion), so
+       \* the coercions performed by then are not comparable; the other effects are
        IF ~IsPrefixOf(si, so) THEN "effects before the throwing coercion differ"
-       ELSE IF PrimIds(ti) # PrimIds(to) THEN "template coercions differ"
        ELSE ""
+     ELSE IF primFault /\ swallow THEN ""
      ELSE IF d # 0 THEN
        "effect " \o ToString(d) \o " differs: input " \o
          (IF d <= Len(si) THEN ToString(si[d]) ELSE "<end>") \o " output " \o
          (IF d <= Len(so) THEN ToString(so[d]) ELSE "<end>")
-     ELSE IF inOut.k # "throw" /\ PrimIds(ti) # PrimIds(to) THEN "template coercions differ"
+     ELSE IF inOut.k # "throw" /\ ~swallow /\ PrimIds(ti) # PrimIds(to) THEN "template coercions differ"
      ELSE IF ~notEarlier THEN "a template substitution is coerced earlier than in the input, or coerced without counterpart"
      ELSE ""
 
